@@ -48,4 +48,21 @@ MUTANTS = {
         ("cond fn accepts int condition again", [("cspuz/constraints.py", "        res = _make_int_expr(Op.IF, [c, t, f])  # type: ignore\n        if res is NotImplemented:\n            raise TypeError(\"unsupported argument type(s) for 'cond'\")\n        return res", "        return IntExpr(Op.IF, [c, t, f])")]),
         ("alldifferent helper skips nested tuples", [("cspuz/constraints.py", "    for x in flatten_iterator(*args):\n        if isinstance(x, int):\n            operands.append(x)", "    for x in flatten_iterator(*[a for a in args if not isinstance(a, tuple)]):\n        if isinstance(x, int):\n            operands.append(x)")]),
     ],
+    "C03": [
+        ("bool vars emitted with i prefix in expressions", [(SUGAR, '        return "b{}".format(e.id)', '        return "i{}".format(e.id)')]),
+        ("IMP emitted as iff", [(SUGAR, 'Op.IMP: "=>",', 'Op.IMP: "iff",')]),
+        ("XOR emitted as iff", [(SUGAR, 'Op.XOR: "xor",', 'Op.XOR: "iff",')]),
+        ("GE emitted as >", [(SUGAR, 'Op.GE: ">=",', 'Op.GE: ">",')]),
+        ("answer-key line dropped", [(SUGAR, "self.converted_variables + self.converted_constraints + [answer_keys_desc]", "self.converted_variables + self.converted_constraints")]),
+        ("int decl bounds swapped", [(SUGAR, 'return "(int i{} {} {})".format(v.id, v.lo, v.hi)', 'return "(int i{} {} {})".format(v.id, v.hi, v.lo)')]),
+        ("reply var id parsed from 2nd char", [(SUGAR, "            assignment[int(var[1:])] = converted_val\n        for v in self.variables:\n            v.sol = assignment[v.id]\n        return True\n\n    def solve_irrefutably", "            assignment[int(var[2:] or var[1:])] = converted_val\n        for v in self.variables:\n            v.sol = assignment[v.id]\n        return True\n\n    def solve_irrefutably")]),
+        ("find reply: false parsed as True", [(SUGAR, '            var, val = line[2:].strip().split("\\t")\n            if val == "true":\n                converted_val = True\n            elif val == "false":\n                converted_val = False', '            var, val = line[2:].strip().split("\\t")\n            if val == "true":\n                converted_val = True\n            elif val == "false":\n                converted_val = True')]),
+        ("find reply: ints kept as str", [(SUGAR, "                converted_val = int(val)\n            assignment[int(var[1:])] = converted_val\n        for v in self.variables:\n            v.sol = assignment[v.id]\n        return True\n\n    def solve_irrefutably", "                converted_val = val\n            assignment[int(var[1:])] = converted_val\n        for v in self.variables:\n            v.sol = assignment[v.id]\n        return True\n\n    def solve_irrefutably")]),
+        ("deduction: stale sol on undecided keys", [(SUGAR, "        out = self._call_solver(csp_description).split(\"\\n\")\n        for v in self.variables:\n            v.sol = None\n\n        if \"unsat\" in out[0]:", "        out = self._call_solver(csp_description).split(\"\\n\")\n\n        if \"unsat\" in out[0]:"), (SUGAR, "            assignment[int(var[1:])] = converted_val\n        for v in self.variables:\n            v.sol = assignment[v.id]\n        return True\n\n    def _call_solver", "            assignment[int(var[1:])] = converted_val\n        for v in self.variables:\n            if assignment[v.id] is not None:\n                v.sol = assignment[v.id]\n        return True\n\n    def _call_solver")]),
+        ("native atom: edges before flags", [("cspuz/graph.py", "                + [is_active[i] for i in range(len(is_active))]  # type: ignore\n                + sum([[x, y] for x, y in graph.edges], []),  # type: ignore", "                + sum([[x, y] for x, y in graph.edges], [])  # type: ignore\n                + [is_active[i] for i in range(len(is_active))],  # type: ignore")]),
+        ("native atom: edge endpoints y,y", [("cspuz/graph.py", "                + sum([[x, y] for x, y in graph.edges], []),  # type: ignore", "                + sum([[y, y] for x, y in graph.edges], []),  # type: ignore")]),
+        ("native division: sizes None emitted as 0", [(SUGAR, '    if e is None:\n        return "*"', '    if e is None:\n        return "0"')]),
+        ("constant false emitted as true", [(SUGAR, '        return "true" if e.operands[0] else "false"', '        return "true"')]),
+        ("last constraint not emitted", [(SUGAR, "            self.converted_constraints += map(_convert_expr, constraint)", "            self.converted_constraints += map(_convert_expr, constraint[:-1] if len(constraint) > 3 else constraint)")]),
+    ],
 }
